@@ -332,6 +332,27 @@ def check(chk):
         chk.judge(paired, 'C12.paired', n.ast, 'heartbeat scan: %s follows the heartbeat\'s own in_flight += 1' % src(n.ast).strip()[:60],
                   'the scan hands a connection it found defunct / closed to owner.return_connection without having sent a heartbeat on it: the pool decrements in_flight for a '
                   'stream that was never taken (an idle dead connection goes to in_flight == -1)')
+    # ---- the wait loop gives the heartbeat's stream back itself (in_flight -= 1): handing the connection to the pool afterwards must not decrement again
+    def _step_dec(n, c):
+        if n.kind == 'for_iter':
+            return False
+        if n.kind == 'stmt' and isinstance(n.ast, ast.AugAssign) and isinstance(n.ast.op, ast.Sub) and src(n.ast.target).endswith('.in_flight'):
+            return True
+        return c
+    fdec = Flow(ghb, False, _step_dec)
+    n_after = 0
+    for n in ghb.stmt_nodes():
+        if n.kind != 'stmt' or n.ast is None or id(n.ast) in in_scan:
+            continue
+        for c in ast.walk(n.ast):
+            if isinstance(c, ast.Call) and isinstance(c.func, ast.Attribute) and c.func.attr == 'return_connection' and any(cc for _f, cc in fdec.at(n)):
+                n_after += 1
+                orphan = any(k.arg == 'stream_was_orphaned' and isinstance(k.value, ast.Constant) and k.value.value is True for k in c.keywords)
+                chk.judge(orphan, 'C12.paired', n.ast, 'heartbeat wait loop: after its own in_flight -= 1 the connection is handed back with stream_was_orphaned=True (no second decrement)',
+                          'the wait loop decrements in_flight for the answered heartbeat and then calls %s, which decrements again: every answered heartbeat on a pooled connection '
+                          'lowers in_flight by one too many, the count goes negative and the pool hands out more streams than the connection has' % src(c)[:70])
+    if n_after < 1:
+        raise AnalysisError('ConnectionHeartbeat.run: hand-back of the connection after the heartbeat\'s own decrement not found')
     # ---- a dead connection that was already replaced (it sits in the trash) must not make the pool drop its healthy successor
     rc_ = pool.func('HostConnection.return_connection')
     grc = CFG(rc_)
